@@ -1311,6 +1311,10 @@ impl SwarmDriver {
         self.replication_fetcher
             .set_replication_distance_range(distance);
     }
+    /// kad queries (get / put / closest-peers) this driver has started and that have not finished yet
+    pub fn verif_outstanding_kad_queries(&mut self) -> usize {
+        self.swarm.behaviour_mut().kademlia.iter_queries().count()
+    }
     pub fn verif_reset_replication_throttle(&mut self) {
         self.last_replication = None;
         self.replication_targets.clear();
